@@ -162,8 +162,19 @@ unsigned int __wrap_sleep(unsigned int seconds)
 	int old;
 
 	if (!s) {
+		/* a socket that is not driven by a simulator (dummy transport): behave like a short real sleep and
+		 * stay a cancellation point so that rtr_stop() can end the thread */
+		struct timespec ts = {0, 500000};
+
+		pthread_testcancel();
+		nanosleep(&ts, NULL);
 		VNOW += seconds;
 		return 0;
+	}
+	if (SIM_GATE) {
+		pthread_setcancelstate(PTHREAD_CANCEL_DISABLE, &old);
+		pthread_setcancelstate(old, NULL);
+		SIM_GATE(s, old == PTHREAD_CANCEL_ENABLE);
 	}
 	pthread_setcancelstate(PTHREAD_CANCEL_DISABLE, &old);
 	CNT("sim/sleep_calls");
@@ -361,8 +372,10 @@ static int m_open(void *sk)
 	struct sim *s = sk;
 	int old, rv = TR_SUCCESS;
 
-	pthread_setcancelstate(PTHREAD_CANCEL_DISABLE, &old);
 	CUR_SIM = s;
+	if (SIM_GATE)
+		SIM_GATE(s, 0);
+	pthread_setcancelstate(PTHREAD_CANCEL_DISABLE, &old);
 	cblog_bind(s);
 	s->tcalls++;
 	s->idle_calls++;
@@ -405,7 +418,7 @@ static void m_close(void *sk)
 	int old;
 
 	pthread_setcancelstate(PTHREAD_CANCEL_DISABLE, &old);
-	CUR_SIM = s;
+	/* NB close() is also called by rtr_stop() from a foreign thread: the caller's CUR_SIM must stay its own */
 	CNT("sim/close_calls");
 	TR("close()");
 	if (s->connected) {
@@ -432,8 +445,10 @@ static int m_send(const void *sk, const void *pdu, const size_t len, const time_
 	int old, rv;
 
 	(void)timeout;
-	pthread_setcancelstate(PTHREAD_CANCEL_DISABLE, &old);
 	CUR_SIM = s;
+	if (SIM_GATE)
+		SIM_GATE(s, 0);
+	pthread_setcancelstate(PTHREAD_CANCEL_DISABLE, &old);
 	cblog_bind(s);
 	s->tcalls++;
 	s->idle_calls++;
@@ -484,8 +499,14 @@ static int m_recv(const void *sk, void *buf, const size_t len, const time_t time
 	struct sim *s = (struct sim *)sk;
 	int old, rv;
 
-	pthread_setcancelstate(PTHREAD_CANCEL_DISABLE, &old);
 	CUR_SIM = s;
+	if (SIM_GATE) {
+		/* the library enables cancellation around its receive calls: the gate is a cancellation point */
+		pthread_setcancelstate(PTHREAD_CANCEL_DISABLE, &old);
+		pthread_setcancelstate(old, NULL);
+		SIM_GATE(s, old == PTHREAD_CANCEL_ENABLE);
+	}
+	pthread_setcancelstate(PTHREAD_CANCEL_DISABLE, &old);
 	cblog_bind(s);
 	s->tcalls++;
 	s->idle_calls++;
